@@ -103,26 +103,26 @@ theorem C03_finding_datetime_range :
   simp only [List.append_nil] at this
   simp [decode, readTime, this]
 
-/-- a scalar Variant whose mask carries the dimensions bit (0x46: Int32 + 0x40) decodes; `Encode` appends a
-    dimensions length the decoder never reads for scalars, so inside a DataValue the following field is read from
-    those four bytes: status 0x12345678 comes back as 0 -/
-theorem C03_finding_variant_scalar_dims_bit :
+/-- repaired (was finding C03.variant-scalar-dims-bit): a scalar Variant whose mask carries the dimensions bit (0x46:
+    Int32 + 0x40) is re-encoded without a dimensions field, so a DataValue holding it is stable.  `Encode` used to
+    append `arrayDimensionsLength` (4 bytes) that `Decode` never reads for a scalar: the status 0x12345678 behind it
+    came back as 0. -/
+theorem C03_fixed_variant_scalar_dims_bit :
     decode env 3 .dataValue ⟨[3, 0x46, 42, 0, 0, 0, 0x78, 0x56, 0x34, 0x12], 0⟩
       = .ok (.dataValue 3 (.variant 0x46 0 0 none ⟨6, 0⟩ (.int 42)) 0x12345678 none 0 none 0) ⟨[], 0⟩ ∧
     encode env 3 .dataValue (.dataValue 3 (.variant 0x46 0 0 none ⟨6, 0⟩ (.int 42)) 0x12345678 none 0 none 0)
-      = .ok [3, 0x46, 42, 0, 0, 0, 0, 0, 0, 0, 0x78, 0x56, 0x34, 0x12] ∧
-    decode env 3 .dataValue ⟨[3, 0x46, 42, 0, 0, 0, 0, 0, 0, 0, 0x78, 0x56, 0x34, 0x12], 0⟩
-      = .ok (.dataValue 3 (.variant 0x46 0 0 none ⟨6, 0⟩ (.int 42)) 0 none 0 none 0) ⟨[0x78, 0x56, 0x34, 0x12], 0⟩ :=
+      = .ok [3, 0x46, 42, 0, 0, 0, 0x78, 0x56, 0x34, 0x12] ∧
+    wt env 3 .dataValue (.dataValue 3 (.variant 0x46 0 0 none ⟨6, 0⟩ (.int 42)) 0x12345678 none 0 none 0) = true :=
   ⟨rfl, rfl, rfl⟩
 
-/-- an array of ByteString decodes, but `Encode` drops its elements (C01.variant-bytestring-array), and the
-    re-encoding no longer decodes -/
-theorem C03_finding_variant_bytestring_array :
+/-- repaired (was finding C03.variant-bytestring-array): an array of ByteString is re-encoded with its elements and
+    is stable (`Encode` used to drop them, see C01_fixed_variant_bytestring_array) -/
+theorem C03_fixed_variant_bytestring_array :
     decode env 3 .variant ⟨[0x8f, 1, 0, 0, 0, 1, 0, 0, 0, 0xaa], 0⟩
       = .ok (.variant 0x8f 1 0 none ⟨15, 1⟩ (.slice false [.bytes (some [0xaa])])) ⟨[], 0⟩ ∧
-    encode env 3 .variant (.variant 0x8f 1 0 none ⟨15, 1⟩ (.slice false [.bytes (some [0xaa])])) = .ok [0x8f, 1, 0, 0, 0] ∧
-    decode env 3 .variant ⟨[0x8f, 1, 0, 0, 0], 0⟩ = .fail .err :=
-  ⟨rfl, rfl, rfl⟩
+    encode env 3 .variant (.variant 0x8f 1 0 none ⟨15, 1⟩ (.slice false [.bytes (some [0xaa])]))
+      = .ok [0x8f, 1, 0, 0, 0, 1, 0, 0, 0, 0xaa] :=
+  ⟨rfl, rfl⟩
 
 /-! ### non-vacuity: non-canonical input that is stable -/
 
